@@ -431,3 +431,18 @@ ADDED7 = {
 }
 for _p in CHECKS:
     CHECKS[_p]["text"] = (CHECKS[_p]["text"] + " " + ADDED7.get(_p, "")).strip()
+
+# round 8 / survey 4
+ADDED8 = {
+    "C02": "The UUID part of an identifier is compared in its canonical text.",
+    "C04": "A cleaner that refuses on .has_custom returns a flag deriving from it.",
+    "C07": "get_markings and is_marked share their defaults in every layer.",
+    "C08": "The selector walk has no depth bound.",
+    "C09": "In the FOLLOWEDBY containment a match consumes its container element (cycle rule on the flow graph).",
+    "C11": "Every member of a bundle / list given to add() is handed on unconditionally.",
+    "C12": "Both lists of the directory matcher classify entries with the same stat call; the id-directory expression admits every stored id.",
+    "C15": "A given datetime is not rebuilt from its fields; the time of day a date is combined with is all zero.",
+    "C19": "A ready-made extension object is accepted only as an instance of the class registered for its key in that version.",
+}
+for _p in CHECKS:
+    CHECKS[_p]["text"] = (CHECKS[_p]["text"] + " " + ADDED8.get(_p, "")).strip()
